@@ -36,6 +36,11 @@ Theorem C17_history_current : forall K K_eqb H enc, (forall a b : K, K_eqb a b =
   Permutation (map snd (write K K_eqb H enc (fold_left (fun d l => write K K_eqb H enc d l) hist d0) ts)) (map getstate ts).
 Proof. exact history_thm. Qed.
 
+(* constants the model and the harness rely on, regenerated from transfer/model.py: AbortReason.REQUESTED is
+   "Requested", the two TransferDirection values are distinct single digits *)
+Theorem C17_constants : constants_ok_b = true.
+Proof. vm_compute. reflexivity. Qed.
+
 (* the pickled attributes, regenerated from Transfer.__init__ and _UNPICKABLE_FIELDS, are the fields of the model record *)
 Theorem C17_persisted_fields : persisted_fields_b = true.
 Proof. exact persisted_fields_b_true. Qed.
